@@ -74,6 +74,7 @@ class _Tally:
     def __init__(self, res, component, base):
         self.res, self.component, self.base = res, component, base
         self.tried, self.bad, self.keys = {}, {}, []
+        self.opbase = {}      # operation -> base used instead of self.base (e.g. a defect class that is not tied to the cell facets)
 
     def _note(self, op, fac):
         self.tried.setdefault(op, []).append(fac)
@@ -94,7 +95,8 @@ class _Tally:
     def flush(self):
         for op in sorted(self.bad):
             F, T = self.bad[op], self.tried[op]
-            parts = [self.base] if self.base else []
+            base = self.opbase.get(op, self.base)
+            parts = [base] if base else []
             for key in self.keys:      # in priority order; later keys are judged inside the earlier selection
                 tv = {t[key] for t in T if key in t}
                 fv = {f[key] for f, _, _ in F if key in f}
@@ -154,6 +156,14 @@ G_SHAPES = {   # target -> [(shape, sparse format)]
 }
 G_DIMS = [1, 2, 3, 75, 76]
 G_DIMS_THOROUGH = [1, 2, 3, 4, 5, 74, 75, 76, 77]
+# scale facet: Sigma -> 2^e Sigma (power of two: the scaled data are exact images of the unscaled ones)
+G_SCALES = [-30, 20]
+G_SCALE_DIMS = [1, 2, 76]
+G_SCALE_DIMS_THOROUGH = [1, 2, 3, 4, 5, 75, 76]
+# representation facet: integer-valued data of every parameterisation given as float64 / integer dtype / python ints
+G_INT_SHAPES = [("scalar", ""), ("vector", ""), ("diagonal", ""), ("dense", ""), ("sparse", "csr")]
+G_INT_DIMS = [1, 2]
+G_INT_DIMS_THOROUGH = [1, 2, 3, 4, 76]
 
 FAMILIES = ["Normal", "Laplace", "SmoothedLaplace", "Cauchy", "Gamma", "InverseGamma", "Beta", "Uniform",
             "Lognormal", "ModifiedHalfNormal"]
@@ -163,6 +173,16 @@ MRF_COMBOS = [("zero", 0), ("zero", 1), ("zero", 2), ("neumann", 1), ("periodic"
 
 
 def cells(tier, seed):
+    import os
+    for c in _cells(tier, seed):
+        if os.environ.get("C04_BASELINE") and (c.get("scale") or c.get("target") == "int" or c.get("pset") == "int"):
+            continue
+        if os.environ.get("C04_BASELINE") and c.get("kind") == "mrf":
+            c["intforms"] = "none"
+        yield c
+
+
+def _cells(tier, seed):
     thorough = tier != "quick"
     k0 = refs.cat(seed)
     cats = [k0] + ([c for c in range(refs.K_CATALOGUES) if c != k0] if thorough else [])
@@ -174,15 +194,29 @@ def cells(tier, seed):
                 for param in G_PARAMS:
                     yield {"kind": "gauss", "target": target, "param": param, "dim": dim, "cat": k,
                            "full_basis": bool(thorough or dim <= 3), "ngeneric": 4 if thorough else 2}
+        for e in G_SCALES:
+            for dim in (G_SCALE_DIMS_THOROUGH if thorough else G_SCALE_DIMS):
+                for target in ("iso", "diag", "full", "band"):
+                    if dim == 1 and target in ("full", "band"):
+                        continue
+                    for param in G_PARAMS:
+                        yield {"kind": "gauss", "target": target, "param": param, "dim": dim, "cat": k, "scale": e,
+                               "means": "all" if thorough else "zero+vector",
+                               "full_basis": bool(thorough or dim <= 3), "ngeneric": 4 if thorough else 2}
+        for dim in (G_INT_DIMS_THOROUGH if thorough else G_INT_DIMS):
+            for param in G_PARAMS:
+                yield {"kind": "gauss", "target": "int", "param": param, "dim": dim, "cat": k,
+                       "means": "all" if thorough else "reduced", "full_basis": bool(dim <= 4), "ngeneric": 2}
         for fam in FAMILIES:
             for ps in range(len(_PSETS[fam])):
                 yield {"kind": "fam", "family": fam, "pset": ps, "cat": k}
+            yield {"kind": "fam", "family": fam, "pset": "int", "cat": k}
         n1 = range(2, 11) if thorough else range(2, 7)
         n2 = range(2, 5) if thorough else range(2, 4)
         for fam in ("GMRF", "LMRF", "CMRF"):
             for pd, rng in ((1, n1), (2, n2)):
                 for N in rng:
-                    yield {"kind": "mrf", "family": fam, "pd": pd, "N": N, "cat": k}
+                    yield {"kind": "mrf", "family": fam, "pd": pd, "N": N, "cat": k, "intforms": "all" if thorough else "scalar"}
         for d in (1, 2, 3):
             yield {"kind": "user", "dim": d, "cat": k}
         yield {"kind": "user", "dim": "gallery", "cat": k}
@@ -258,11 +292,12 @@ def _sym_sqrt(M):
     return (V * np.sqrt(w)) @ V.T
 
 
-def _gauss_data(target, shape, fmt, param, factor, dim, k):
-    """The documented datum of ``param`` for the target covariance in the given data shape.
+def _gauss_data(target, shape, fmt, param, factor, dim, k, e=0):
+    """The documented datum of ``param`` for the target covariance 2^e * Sigma_target in the given data shape.
     cov = Sigma, prec = Sigma^-1, sqrtcov R with R R^T = Sigma, sqrtprec R with R^T R = Sigma^-1."""
     import scipy.sparse as sp
-    Sigma = _target_cov(target, dim, k)
+    c = 2.0 ** e
+    Sigma = c * _target_cov(target, dim, k)
     M = Sigma if param in ("cov", "sqrtcov") else np.linalg.inv(Sigma)
     M = (M + M.T) / 2
     if param.startswith("sqrt"):
@@ -271,7 +306,7 @@ def _gauss_data(target, shape, fmt, param, factor, dim, k):
         elif factor == "sym":
             M = _sym_sqrt(M)
         elif target == "band" and param == "sqrtprec":
-            M = _band_factor(dim, k)            # exactly bidiagonal
+            M = _band_factor(dim, k) / math.sqrt(c)           # exactly bidiagonal
         else:
             # triangular (non-symmetric) factor in the documented convention of each parameter:
             # sqrtcov R with R R^T = cov (lower Cholesky), sqrtprec R with R^T R = prec (upper Cholesky)
@@ -289,6 +324,59 @@ def _gauss_data(target, shape, fmt, param, factor, dim, k):
     return sp.dia_matrix(M)
 
 
+# ---- integer-valued data (representation facet) -------------------------------------------------------------
+def _int_vec(dim, k):
+    return np.array([1 + ((2 * i + k) % 4) for i in range(dim)], dtype=np.int64)            # entries 1..4
+
+
+def _int_mean(dim, k):
+    return np.array([((3 * i + 2 * k) % 7) - 3 for i in range(dim)], dtype=np.int64)        # entries -3..3
+
+
+def _int_sym(dim, k):
+    """Integer symmetric positive definite (strictly diagonally dominant tridiagonal) matrix."""
+    M = np.diag(3 + _int_vec(dim, k))
+    for i in range(dim - 1):
+        M[i, i + 1] = M[i + 1, i] = 1 if (i + k) % 2 == 0 else -1
+    return M
+
+
+def _int_tri(dim, k, lower):
+    """Integer invertible bidiagonal (non-symmetric) factor."""
+    R = np.diag(_int_vec(dim, k + 1))
+    for i in range(dim - 1):
+        R[i, i + 1] = -1 if (i + k) % 2 == 0 else 2
+    return R.T.copy() if lower else R
+
+
+def _int_data(shape, struct, fmt, param, factor, dim, k, rep):
+    """Integer-valued datum of ``param`` in the representation ``rep`` (float64 / int64 entries, python
+    float / int scalar) and the covariance it denotes according to the documentation."""
+    import scipy.sparse as sp
+    if shape == "scalar":
+        D = (2 + k) * np.eye(dim, dtype=np.int64)
+    elif shape in ("vector", "diagonal") or struct == "diagonal":
+        D = np.diag(_int_vec(dim, k))
+    elif factor in ("-", "sym"):
+        D = _int_sym(dim, k)
+    else:
+        D = _int_tri(dim, k, lower=(param == "sqrtcov"))
+    Df = D.astype(float)
+    Sigma = {"cov": Df, "prec": np.linalg.inv(Df), "sqrtcov": Df @ Df.T, "sqrtprec": np.linalg.inv(Df.T @ Df)}[param]
+    A = D.astype(np.float64 if rep == "float" else np.int64)
+    if shape == "scalar":
+        data = float(D[0, 0]) if rep == "float" else int(D[0, 0])
+    elif shape == "vector":
+        data = np.diag(A).copy()
+    elif shape in ("diagonal", "dense"):
+        data = A
+    else:
+        data = sp.csr_matrix(A)
+        if data.dtype != A.dtype:
+            raise AssertionError("harness self-check: sparse datum lost its dtype")
+    return data, Sigma
+
+
 def _modes(dim):
     """(path label, MIN_DIM_SPARSE value): natively (75) and with the threshold moved next to the dimension."""
     if dim <= 75:
@@ -296,8 +384,10 @@ def _modes(dim):
     return [("sparse", 75), ("dense", dim)]
 
 
-def _gauss_points(dim, k, mean, full_basis, ngen):
-    pts = [np.zeros(dim), np.array(mean, float)]
+def _gauss_points(dim, k, mean, full_basis, ngen, c=1.0):
+    """0, mean, basis, generic points in the coordinates standardised by the overall scale: mean + sqrt(c)(p - mean)."""
+    mean = np.array(mean, float)
+    pts = [np.zeros(dim), mean.copy()]
     idx = range(dim) if full_basis else sorted({0, 1, dim // 2, dim - 1})
     for i in idx:
         e = np.zeros(dim)
@@ -305,44 +395,89 @@ def _gauss_points(dim, k, mean, full_basis, ngen):
         pts.append(e)
     for j in range(ngen):
         pts.append(refs.dyadic_vec(dim, k + 3 * j))
+    if c != 1.0:
+        pts = [mean + math.sqrt(c) * (p - mean) for p in pts]
     return pts
+
+
+def _safe_exp(v):
+    with np.errstate(all="ignore"):
+        return float(np.exp(v))
 
 
 def _eval_gauss(cell, res):
     import cuqi
     target, param, dim, k = (cell[x] for x in ("target", "param", "dim", "cat"))
-    Sigma = _target_cov(target, dim, k)
-    struct = {"iso": "diagonal", "diag": "diagonal", "full": "full", "band": "banded"}[target]
-    tally = _Tally(res, "Gaussian", "param=%s" % param)
-    factors = ["sym", "upper"] if (param.startswith("sqrt") and target in ("full", "band")) else ["-"]
-    mvec = refs.dyadic_vec(dim, k + 2, scale=0.125)
-    mean_forms = [("zero", 0.0, np.zeros(dim)), ("scalar", 0.75, 0.75 * np.ones(dim)), ("vector", mvec, mvec),
-                  ("list", mvec.tolist(), mvec), ("callable", None, mvec)]
-    ctx = {"quad": set(), "ref": {}}
-    for mkind, _, mref in mean_forms:     # the reference values, once per mean form
-        pts = _gauss_points(dim, k, mref, cell["full_basis"], cell["ngeneric"])
-        ctx["ref"][mkind] = (pts, np.array([refs.gauss_logpdf(x, mref, Sigma) for x in pts]))
-    for shape, fmt in G_SHAPES[target]:
+    e = cell.get("scale", 0)
+    isint = target == "int"
+    stag = "scale=2^%d" % e if e else ""
+    tally = _Tally(res, "Gaussian", "param=%s" % param + ("," + stag if stag else ""))
+    tally.opbase["logpdf-finite"] = stag        # overflow is not tied to the parameterisation of the cell
+    ctx = {"quad": set(), "ref": {}, "e": e, "c": 2.0 ** e}
+    if isint:
+        shapes = [("scalar", "", "diagonal"), ("vector", "", "diagonal"), ("diagonal", "", "diagonal"),
+                  ("sparse", "csr", "diagonal")]
+        if dim > 1:
+            shapes += [("dense", "", "full"), ("sparse", "csr", "full")]
+        ivec = _int_mean(dim, k)
+        fvec = ivec.astype(float)
+        mean_forms = [("scalar", "float", 1.0, np.ones(dim)), ("scalar", "int", 1, np.ones(dim)),
+                      ("vector", "float", fvec, fvec), ("vector", "int", ivec, fvec),
+                      ("list", "float", fvec.tolist(), fvec), ("list", "int", ivec.tolist(), fvec)]
+        if cell.get("means") == "reduced":
+            mean_forms = [m for m in mean_forms if m[1] == "int" or m[0] == "vector"]
+        reps = ["float", "int"]
+    else:
+        struct = {"iso": "diagonal", "diag": "diagonal", "full": "full", "band": "banded"}[target]
+        shapes = [(sh, fmt, struct) for sh, fmt in G_SHAPES[target]]
+        mvec = refs.dyadic_vec(dim, k + 2, scale=0.125)
+        mean_forms = [("zero", None, 0.0, np.zeros(dim)), ("scalar", None, 0.75, 0.75 * np.ones(dim)),
+                      ("vector", None, mvec, mvec), ("list", None, mvec.tolist(), mvec), ("callable", None, None, mvec)]
+        if cell.get("means") == "zero+vector":
+            mean_forms = [m for m in mean_forms if m[0] in ("zero", "vector")]
+        reps = [None]
+        Sigma = ctx["c"] * _target_cov(target, dim, k)
+    for shape, fmt, struct in shapes:
         label = shape if shape != "sparse" else "sparse-%s-%s" % (fmt, struct)
         passings = ["array"] + (["list"] if shape != "sparse" else []) + ["callable"] + (["none"] if param == "cov" else [])
+        fullmat = struct in ("full", "banded") and shape in ("dense", "sparse")
+        factors = ["sym", "upper"] if (param.startswith("sqrt") and fullmat) else ["-"]
         for path, minval in _modes(dim):
             old = cuqi.config.MIN_DIM_SPARSE
             cuqi.config.MIN_DIM_SPARSE = minval
             try:
                 for factor in factors:
-                    data = _gauss_data(target, shape, fmt, param, factor, dim, k)
-                    for passing in passings:
-                        for mkind, marg, mref in mean_forms:
-                            fac = {"data": label, "path": path, "pass": passing, "mean": mkind, "factor": factor}
-                            _gauss_config(cuqi, res, tally, cell, fac, shape, data, marg, mref, Sigma, ctx)
+                    for rep in reps:
+                        if isint:
+                            data, Sigma = _int_data(shape, struct, fmt, param, factor, dim, k, rep)
+                            skey = "%s/%s" % ("scalar" if shape == "scalar" else struct, factor)
+                        else:
+                            data = _gauss_data(target, shape, fmt, param, factor, dim, k, e)
+                            skey = ""
+                        for passing in passings:
+                            for mkind, mrep, marg, mref in mean_forms:
+                                fac = {"data": label, "path": path, "pass": passing, "mean": mkind, "factor": factor}
+                                if isint:
+                                    fac["rep"], fac["meanrep"] = rep, mrep
+                                _gauss_config(cuqi, res, tally, cell, fac, shape, data, marg, mref, Sigma, skey, ctx)
             finally:
                 cuqi.config.MIN_DIM_SPARSE = old
     tally.flush()
 
 
-def _gauss_config(cuqi, res, tally, cell, fac, shape, data, marg, mref, Sigma, ctx):
+def _gauss_ref(ctx, cell, mkind, mref, Sigma, skey):
+    """Evaluation points and reference values of N(mref, Sigma), once per (mean, covariance) of the cell."""
+    key = (mkind, skey)
+    if key not in ctx["ref"]:
+        pts = _gauss_points(cell["dim"], cell["cat"], mref, cell["full_basis"], cell["ngeneric"], ctx["c"])
+        ctx["ref"][key] = (pts, np.array([refs.gauss_logpdf(x, mref, Sigma) for x in pts]))
+    return ctx["ref"][key]
+
+
+def _gauss_config(cuqi, res, tally, cell, fac, shape, data, marg, mref, Sigma, skey, ctx):
     dim, k, param = cell["dim"], cell["cat"], cell["param"]
     passing, mkind = fac["pass"], fac["mean"]
+    isint = "rep" in fac
     cond, kwargs = {}, {}
     implied = mkind in ("vector", "list")
     if passing == "array":
@@ -352,8 +487,12 @@ def _gauss_config(cuqi, res, tally, cell, fac, shape, data, marg, mref, Sigma, c
         kwargs[param] = data.tolist() if isinstance(data, np.ndarray) else [data]
         implied = implied or shape != "scalar"
     elif passing == "callable":
-        kwargs[param] = (lambda s, _d=data: (s / 2.0) * _d)      # conditioned on s = 2 later
-        cond["s"] = 2.0
+        if fac.get("rep") == "int":
+            kwargs[param] = (lambda s, _d=data: s * _d)             # conditioned on the python int s = 1 later
+            cond["s"] = 1
+        else:
+            kwargs[param] = (lambda s, _d=data: (s / 2.0) * _d)      # conditioned on s = 2 later
+            cond["s"] = 2.0
     else:
         kwargs[param] = None
         cond[param] = data
@@ -366,7 +505,7 @@ def _gauss_config(cuqi, res, tally, cell, fac, shape, data, marg, mref, Sigma, c
         kwargs["geometry"] = dim
     if cond:
         kwargs["name"] = "x"
-    res.state("/".join(fac[x] for x in ("data", "path", "factor", "pass", "mean")))
+    res.state("/".join(str(fac[x]) for x in ("data", "path", "factor", "pass", "mean", "rep", "meanrep") if x in fac))
     res.transitions += 1
     try:
         g0 = cuqi.distribution.Gaussian(**kwargs)
@@ -381,7 +520,7 @@ def _gauss_config(cuqi, res, tally, cell, fac, shape, data, marg, mref, Sigma, c
         return
     res.outcomes.add("store:%s:%s:%s" % (fac["data"], fac["path"], type(getattr(g, "_sqrtprec", None)).__name__))
     first = res.sample is None
-    pts, refv = ctx["ref"][mkind]
+    pts, refv = _gauss_ref(ctx, cell, (mkind, fac.get("meanrep")), mref, Sigma, skey)
     lp, ld, lu = [], [], []
     refused = None
     for x in pts:
@@ -414,6 +553,14 @@ def _gauss_config(cuqi, res, tally, cell, fac, shape, data, marg, mref, Sigma, c
     lp, ld = np.array(lp), np.array(ld)
     if first:
         res.sample = {"configuration": fac, "x": pts[-1], "logpdf": lp[-1], "logd": ld[-1], "reference": refv[-1]}
+    if not np.all(np.isfinite(lp)):
+        # the documented density is finite and positive everywhere: an infinite / nan value is an overflow of the
+        # implementation, reported as a defect class of its own (not as a wrong value of this parameterisation)
+        j = int(np.argmin(np.isfinite(lp)))
+        tally.fail("logpdf-finite", fac, "Gaussian given by %s: logpdf = %r where the documented normalised density "
+                   "gives the finite value %r" % (param, lp[j], refv[j]), x=pts[j], impl=lp[j], ref=refv[j])
+        return
+    tally.ok("logpdf-finite", fac)
     if _const(ld - lp) and np.all(np.isfinite(ld) | ~np.isfinite(lp)):
         tally.ok("logd-constant", fac)
     else:
@@ -424,7 +571,8 @@ def _gauss_config(cuqi, res, tally, cell, fac, shape, data, marg, mref, Sigma, c
         j = int(np.argmax(np.abs(np.where(np.isfinite(lp), lp, 1e300) - refv)))
         note = ""
         if param == "sqrtcov" and isinstance(data, np.ndarray) and data.ndim == 2:
-            alt = np.array([refs.gauss_logpdf(x, mref, data.T @ data) for x in pts])
+            R = data.astype(float)
+            alt = np.array([refs.gauss_logpdf(x, mref, R.T @ R) for x in pts])
             if close(lp, alt, 1e-9):
                 note = " (the values are those of cov = R^T R; the documentation defines sqrtcov by R R^T = cov)"
         tally.fail("logpdf", fac, "Gaussian given by %s: logpdf = %r, documented normalised density gives %r%s" %
@@ -442,15 +590,28 @@ def _gauss_config(cuqi, res, tally, cell, fac, shape, data, marg, mref, Sigma, c
             res.outcomes.add("logd-conditional-%s:%s" % (st, type(v).__name__))
     st, v = _call(res, g.pdf, pts[-1])
     if st == "ok":
-        e = math.exp(refv[-1])
-        if close(v, e, 1e-9, atol=1e-9 * max(e, 1e-300)):
+        ex = _safe_exp(refv[-1])
+        if close(v, ex, 1e-9, atol=1e-9 * max(ex, 1e-300)):
             tally.ok("pdf", fac)
         else:
-            tally.fail("pdf", fac, "pdf %r != exp(reference log-density) %r" % (v, e))
+            tally.fail("pdf", fac, "pdf %r != exp(reference log-density) %r" % (v, ex))
+    if isint:
+        # the evaluation point in integer representation (integer dtype array, list of python ints)
+        xi = _int_mean(dim, k) + np.array([(i % 2) + 1 for i in range(dim)], dtype=np.int64)
+        rx = refs.gauss_logpdf(xi.astype(float), mref, Sigma)
+        for lab, xa in (("x-int-array", xi), ("x-int-list", xi.tolist())):
+            st, v = _call(res, g.logpdf, xa)
+            if st == "ok":
+                if close(v, rx, 1e-9):
+                    tally.ok("logpdf-" + lab, fac)
+                else:
+                    tally.fail("logpdf-" + lab, fac, "logpdf(%r) = %r, documented normalised density gives %r" % (xa, v, rx))
+            else:
+                res.outcomes.add("logpdf-%s-%s" % (lab, st))
     if dim <= 2:
-        _gauss_cdf(res, tally, fac, g, mref, Sigma, k)
+        _gauss_cdf(res, tally, fac, g, mref, Sigma, k, ctx["c"], ctx["ref"], (mkind, skey))
     qkey = (fac["data"], fac["path"])
-    if dim == 1 and qkey not in ctx["quad"] and mkind == "scalar":
+    if dim == 1 and ctx["e"] == 0 and not isint and qkey not in ctx["quad"] and mkind == "scalar":
         ctx["quad"].add(qkey)
         s = math.sqrt(Sigma[0, 0])
         total, err, n = _quad_total(lambda t: math.exp(_val(g.logpdf(np.array([t])))), -INF, INF,
@@ -462,19 +623,22 @@ def _gauss_config(cuqi, res, tally, cell, fac, shape, data, marg, mref, Sigma, c
             tally.fail("normalisation", fac, "density integrates to %r" % total)
 
 
-def _gauss_cdf(res, tally, fac, g, mean, Sigma, k):
+def _gauss_cdf(res, tally, fac, g, mean, Sigma, k, c, cache, ckey):
+    """cache: reference values of the cell, keyed by (mean form, covariance) - the quadrature is done once."""
     from scipy.special import ndtr
     dim = len(mean)
-    xs = [mean + np.array([0.25, -0.5])[:dim], mean + np.array([-1.0, 0.75])[:dim], refs.dyadic_vec(dim, k)]
-    for x in xs:
+    sc = math.sqrt(c)
+    xs = [mean + sc * np.array([0.25, -0.5])[:dim], mean + sc * np.array([-1.0, 0.75])[:dim],
+          mean + sc * (refs.dyadic_vec(dim, k) - mean)]
+    for i, x in enumerate(xs):
         st, v = _call(res, g.cdf, x)
         if st != "ok":
             res.outcomes.add("cdf-%s:%s" % (st, (type(v).__name__ + ":" + str(v)[:60]) if st == "raised" else v))
             return
-        if dim == 1:
-            ref = float(ndtr((x[0] - mean[0]) / math.sqrt(Sigma[0, 0])))
-        else:
-            ref = _bvn_cdf(x, mean, Sigma)
+        rkey = ("cdf", ckey, i)
+        if rkey not in cache:
+            cache[rkey] = float(ndtr((x[0] - mean[0]) / math.sqrt(Sigma[0, 0]))) if dim == 1 else _bvn_cdf(x, mean, Sigma)
+        ref = cache[rkey]
         if not close(v, ref, 1e-6, atol=1e-6):
             tally.fail("cdf", fac, "cdf(%s) = %r, integral of the documented density = %r" % (x.tolist(), v, ref))
             return
@@ -545,14 +709,31 @@ _PSETS = {
     "Lognormal": [(0.0, 1.0), (0.5, 0.25), (-0.75, 2.0)],
     "ModifiedHalfNormal": [(2.0, 1.0, 0.5), (1.0, 0.5, -1.0), (3.5, 2.0, 1.5)],
 }
+# integer-valued parameter sets (representation facet: the same values as float64 / integer dtype / python int)
+_PSETS_INT = {
+    "Normal": (1, 2), "Laplace": (1, 2), "SmoothedLaplace": (1, 2, 1), "Cauchy": (1, 2), "Gamma": (2, 3),
+    "InverseGamma": (3, 1, 2), "Beta": (2, 3), "Uniform": (-1, 2), "Lognormal": (1, 2), "ModifiedHalfNormal": (2, 1, 1),
+}
 _POSMUL = [1.0, 1.5, 0.5, 2.0]
 _LOCOFF = [0.0, 0.75, -0.5, 1.25]
 
 
 def _params(fam, ps, k, dim):
     """scalars dict and per-component vectors dict for the catalogue k."""
-    base = _PSETS[fam][ps]
     sc, vec = {}, {}
+    if ps == "int":     # integers in every catalogue
+        for (name, kind), b in zip(_SPEC[fam], _PSETS_INT[fam]):
+            if kind.startswith("pos"):
+                s, v = b + k, [b + k + (i % 3) for i in range(dim)]
+            elif kind.startswith("loc"):
+                s, v = b - k, [b - k + [0, 1, -1, 2][i % 4] for i in range(dim)]
+            elif kind == "low":
+                s, v = b - k, [b - k - (i % 2) for i in range(dim)]
+            else:  # high
+                s, v = b + k, [b + k + (i % 3) for i in range(dim)]
+            sc[name], vec[name] = float(s), np.array(v, dtype=float)
+        return sc, vec
+    base = _PSETS[fam][ps]
     for (name, kind), b in zip(_SPEC[fam], base):
         if kind.startswith("pos"):
             s = b * [1.0, 2.0, 0.5][k] if fam != "Beta" else b + [0.0, 0.5, 1.0][k]
@@ -733,11 +914,14 @@ def _eval_family(cell, res):
                 if minval is not None:
                     cuqi.config.MIN_DIM_SPARSE = minval
                 try:
-                    fac = dict(shapes)
-                    fac.update({"dim": "one" if dim == 1 else "multi", "pass": passing, "geometry": gkind})
-                    if fam == "Lognormal":
-                        fac["path"] = path
-                    _family_config(cuqi, cls, res, tally, cell, fam, fac, shapes, dim, dl, sc, vec)
+                    for rep in (["float", "int"] if ps == "int" else [None]):
+                        fac = dict(shapes)
+                        fac.update({"dim": "one" if dim == 1 else "multi", "pass": passing, "geometry": gkind})
+                        if fam == "Lognormal":
+                            fac["path"] = path
+                        if rep:
+                            fac["rep"] = rep
+                        _family_config(cuqi, cls, res, tally, cell, fam, fac, shapes, dim, dl, sc, vec)
                 finally:
                     cuqi.config.MIN_DIM_SPARSE = old
     tally.flush()
@@ -748,14 +932,21 @@ def _family_config(cuqi, cls, res, tally, cell, fam, fac, shapes, dim, dl, sc, v
     passing, gkind = fac["pass"], fac["geometry"]
     vecs = [n for n, kind in _SPEC[fam] if not kind.endswith("scalar")]
     kwargs, cond, eff = {}, {}, {}
+    asint = fac.get("rep") == "int"      # integer dtype arrays, lists of python ints, python int scalars
+
+    def arr(a):
+        return np.asarray(a).astype(np.int64) if asint else np.array(a, dtype=float)
+
+    def num(v):
+        return int(v) if asint else float(v)
     for name, kind in _SPEC[fam]:
-        kwargs[name], eff[name] = sc[name], np.full(dim, sc[name])
+        kwargs[name], eff[name] = num(sc[name]), np.full(dim, sc[name])
         if shapes.get(name) == "vector":
-            kwargs[name] = vec[name].tolist() if passing == "list" else vec[name].copy()
+            kwargs[name] = arr(vec[name]).tolist() if passing == "list" else arr(vec[name])
             eff[name] = vec[name]
     if passing in ("callable", "none"):
         n = vecs[0]
-        value = vec[n].copy() if dim > 1 else float(vec[n][0])
+        value = arr(vec[n]) if dim > 1 else num(vec[n][0])
         if passing == "callable":
             kwargs[n] = (lambda hp: hp)
             cond["hp"] = value
@@ -766,8 +957,11 @@ def _family_config(cuqi, cls, res, tally, cell, fam, fac, shapes, dim, dl, sc, v
     Sigma = None
     if fam == "Lognormal":
         if shapes.get("cov") == "matrix":
-            Sigma = refs.spd_matrix(dim, k) * sc["cov"]
-            kwargs["cov"] = Sigma.tolist() if passing == "list" else Sigma
+            if cell["pset"] == "int":
+                Sigma = (_int_sym(dim, k) * int(sc["cov"])).astype(float)
+            else:
+                Sigma = refs.spd_matrix(dim, k) * sc["cov"]
+            kwargs["cov"] = arr(Sigma).tolist() if passing == "list" else arr(Sigma)
         else:
             Sigma = np.diag(eff["cov"])
     if gkind == "int":
@@ -777,6 +971,8 @@ def _family_config(cuqi, cls, res, tally, cell, fam, fac, shapes, dim, dl, sc, v
     elif gkind == "tuple2d":
         kwargs["geometry"] = (2, 2)
     tag = "%s/%s/%s/%s" % (dl, passing, gkind, ",".join("%s=%s" % kv for kv in sorted(shapes.items())))
+    if "rep" in fac:
+        tag += "/" + fac["rep"]
     res.state(tag + "/" + fac.get("path", ""))
     res.transitions += 1
     try:
@@ -955,11 +1151,19 @@ def _eval_mrf(cell, res):
     tally = _Tally(res, fam, "")
     geoms = [("int", N)] if pd == 1 else [("image2d", None), ("tuple2d", (N, N))]
     lvec = refs.dyadic_vec(dim, k + 2, scale=0.125)
+    ivec = _int_mean(dim, k)
     loc_forms = [("zero", 0.0, np.zeros(dim)), ("scalar", 0.5, 0.5 * np.ones(dim)), ("vector", lvec, lvec),
-                 ("list", lvec.tolist(), lvec), ("callable", None, lvec)]
-    hyper = [2.0, 0.5, 3.0][k] if fam == "GMRF" else [0.5, 2.0, 0.25][k]
-    hyp_forms = ["float", "array1", "callable"] if fam == "GMRF" else ["float", "callable"]
+                 ("list", lvec.tolist(), lvec), ("callable", None, lvec),
+                 # representation facet: integer-valued location as python int / integer dtype array
+                 ("int-scalar", 1, np.ones(dim)), ("int-vector", ivec, ivec.astype(float))]
+    hyper_f = [2.0, 0.5, 3.0][k] if fam == "GMRF" else [0.5, 2.0, 0.25][k]
+    hyper_i = 2 + k                                   # integer-valued hyper-parameter (python int / integer dtype)
+    hyp_forms = ["float", "array1", "callable", "int"] if fam == "GMRF" else ["float", "callable", "int"]
+    if fam == "GMRF" and cell.get("intforms") == "all":
+        hyp_forms.append("int-array1")
     pts = [np.zeros(dim)] + [np.eye(dim)[:, i] for i in range(dim)] + [refs.dyadic_vec(dim, k), refs.dyadic_vec(dim, k + 3)]
+    if cell.get("intforms") == "none":
+        loc_forms, hyp_forms = loc_forms[:5], [h for h in hyp_forms if not h.startswith("int")]
     cls = getattr(cuqi.distribution, fam)
     locname = "mean" if fam == "GMRF" else "location"
     hypname = "prec" if fam == "GMRF" else "scale"
@@ -978,17 +1182,21 @@ def _eval_mrf(cell, res):
         tol = 1e-9 if (fam != "GMRF" or bc == "zero") else 1e-5
         for gname, geom in geoms:
             for lkind, larg, lref in loc_forms:
-                rf = []
-                for x in pts:
-                    r = x - lref
-                    if fam == "GMRF":
-                        rf.append(0.5 * (rank_ref * (math.log(hyper) - LOG2PI) + ld_ref) - 0.5 * hyper * float(r @ P @ r))
-                    elif fam == "LMRF":
-                        rf.append(float(np.sum(-np.log(2 * hyper) - np.abs(D @ r) / hyper)))
-                    else:
-                        rf.append(float(np.sum(np.log(hyper / np.pi) - np.log((D @ r) ** 2 + hyper ** 2))))
-                rf = np.array(rf)
+                rfs = {}
+                for hyper in (hyper_f, float(hyper_i)):
+                    rf = []
+                    for x in pts:
+                        r = x - lref
+                        if fam == "GMRF":
+                            rf.append(0.5 * (rank_ref * (math.log(hyper) - LOG2PI) + ld_ref) - 0.5 * hyper * float(r @ P @ r))
+                        elif fam == "LMRF":
+                            rf.append(float(np.sum(-np.log(2 * hyper) - np.abs(D @ r) / hyper)))
+                        else:
+                            rf.append(float(np.sum(np.log(hyper / np.pi) - np.log((D @ r) ** 2 + hyper ** 2))))
+                    rfs[hyper] = np.array(rf)
                 for hform in hyp_forms:
+                    hyper = hyper_i if hform.startswith("int") else hyper_f
+                    rf = rfs[float(hyper)]
                     fac = {"bc": bc, "order": str(order), "loc": lkind, "hyper": hform, "geometry": gname}
                     kwargs = {"bc_type": bc, "geometry": geom if geom is not None else cuqi.geometry.Image2D((N, N))}
                     if fam == "GMRF":
@@ -1001,7 +1209,9 @@ def _eval_mrf(cell, res):
                         kwargs[locname] = larg
                     if hform == "float":
                         kwargs[hypname] = hyper
-                    elif hform == "array1":
+                    elif hform == "int":
+                        kwargs[hypname] = int(hyper)
+                    elif hform in ("array1", "int-array1"):
                         kwargs[hypname] = np.array([hyper])
                     else:
                         kwargs[hypname] = (lambda d: d)
